@@ -476,18 +476,24 @@ def cfg_of(func: ast.AST) -> CFG:
     return c
 
 
-def guards(node: ast.AST, stop: Optional[ast.AST] = None) -> list[tuple[ast.AST, bool]]:
+def guards(node: ast.AST, stop: Optional[ast.AST] = None, path_sensitive: bool = False) -> list[tuple[ast.AST, bool]]:
     """Syntactic guards: enclosing `if`/`while`/ternary tests with polarity (True = node lies in the true arm).
-    For an `elif`/`else` arm the negations of the earlier arms are included. Stops at the enclosing function (or `stop`)."""
+    For an `elif`/`else` arm the negations of the earlier arms are included. Stops at the enclosing function (or `stop`).
+    Guard clauses (`if c: <jump>` followed by the rest of the block) are represented as `if c: <jump> else: <rest>` by the parse-time normalisation (N8); the negated condition of
+    such a synthetic else is reported only with path_sensitive=True — the default answers "under which explicit branch was this written", path_sensitive answers "what is known
+    to hold when this runs"."""
     out = []
     child = node
     p = getattr(node, "_parent", None)
     while p is not None and p is not stop and not isinstance(p, SCOPE_TYPES):
         if isinstance(p, (ast.If, ast.While)):
+            syn = getattr(p, "_synthetic_arm", None)
             if any(child is s for s in p.body):
-                out.append((p.test, True))
+                if path_sensitive or syn != "body":
+                    out.append((p.test, True))
             elif any(child is s for s in p.orelse):
-                out.append((p.test, False))
+                if path_sensitive or syn != "orelse":
+                    out.append((p.test, False))
         elif isinstance(p, ast.IfExp):
             if child is p.body:
                 out.append((p.test, True))
@@ -536,7 +542,7 @@ def facts(node: ast.AST, stop: Optional[ast.AST] = None) -> set:
     """Atomic facts (as text, both comparison orientations) that hold whenever `node` executes, derived from its syntactic guards:
     true-arm tests contribute their conjuncts, false-arm tests the conjuncts of their negation (De Morgan, negated comparisons)."""
     out = set()
-    for t, pol in guards(node, stop):
+    for t, pol in guards(node, stop, path_sensitive=True):
         e = t if pol else negate(t)
         for a in conjuncts(e):
             out |= forms(a)
